@@ -2,6 +2,7 @@ package props
 
 import (
 	"fmt"
+	"sort"
 	"sync"
 	"testing"
 	"testing/synctest"
@@ -201,6 +202,103 @@ func appKey(kind int) string {
 	default:
 		return "all"
 	}
+}
+
+// runC10Several: several peers on one state machine, one after the other: a peer whose CER is
+// acceptable, then a peer whose CER is unacceptable in way `bad` (c10Wire rotates the ways with
+// the identifier), then another acceptable one.  What the first peer presented must not help the
+// second: its application messages never reach a handler and it gets a failure CEA; the third
+// peer is served as usual.
+func runC10Several(c *ev.Case, ctx *lib.Ctx, bad int, allByIdx bool, goodFirst int) {
+	sig := func(op string) ev.Sig { return ev.Sig{"op": op, "role": "server", "suite": "several-peers"} }
+	settings := &sm.Settings{OriginHost: "srv.local", OriginRealm: "realm.local", VendorID: 13, ProductName: "verif",
+		HostIPAddresses: []datatype.Address{datatype.Address([]byte{192, 0, 2, 1})}}
+	machine := sm.New(settings)
+	l := &hlog{}
+	instrument(machine, l, allByIdx)
+	ln := memnet.NewListener()
+	srv := &diam.Server{Handler: machine, Dict: ctx.Parser}
+	go srv.Serve(ln)
+	var conns []*memnet.Conn
+	open := func(i int) *memnet.Conn {
+		mc := memnet.NewConn()
+		mc.Remote = memnet.Addr{Net: "tcp", Str: fmt.Sprintf("10.0.0.%d:4000", i+1)}
+		conns = append(conns, mc)
+		ln.Offer(mc)
+		return mc
+	}
+	defer func() {
+		for _, mc := range conns {
+			mc.FeedEOF()
+		}
+		ln.Close()
+		synctest.Wait()
+	}()
+	var want []string
+	next := uint32(7000)
+	good := func(i int) bool {
+		mc := open(i)
+		cer := next
+		mc.Feed(c10Wire(pCERok, cer))
+		next++
+		for _, k := range []int{pReqA, pReqB, pUnreg} {
+			mc.Feed(c10Wire(k, next))
+			want = append(want, fmt.Sprintf("%s:%d", appKey(k), next))
+			next++
+		}
+		synctest.Wait()
+		msgs, _ := peer.SplitMessages(mc.Written())
+		if len(msgs) != 1 || len(peer.FindU32(msgs[0], peer.ResultCode)) != 1 || peer.FindU32(msgs[0], peer.ResultCode)[0] != 2001 || mc.CloseCount() != 0 {
+			c.Fail(sig("good-peer-refused"), nil, nil, "peer %d sent an acceptable CER and three requests: %d messages written back, closed %d times", i, len(msgs), mc.CloseCount())
+			return false
+		}
+		return true
+	}
+	for i := 0; i < goodFirst; i++ {
+		if !good(i) {
+			return
+		}
+	}
+	// the unacceptable one
+	mc := open(goodFirst)
+	hbh := next + uint32(7+bad) - next%7 // hbh % 7 == bad
+	next = hbh + 1
+	cer := c10Wire(pCERbad, hbh)
+	mc.Feed(cer)
+	var gated []uint32
+	for _, k := range []int{pReqA, pReqB, pUnreg, pAns} {
+		mc.Feed(c10Wire(k, next))
+		gated = append(gated, next)
+		next++
+	}
+	synctest.Wait()
+	msgs, _ := peer.SplitMessages(mc.Written())
+	if len(msgs) != 1 || peer.Header(msgs[0]).Code != 257 {
+		c.Fail(sig("cea-count"), cer, nil, "an unacceptable CER (way %d) from the peer after %d accepted ones: %d messages written back", bad, goodFirst, len(msgs))
+		return
+	}
+	if rc := peer.FindU32(msgs[0], peer.ResultCode); len(rc) != 1 || rc[0] == 2001 {
+		c.Fail(sig("accepted-unacceptable-cer"), cer, nil, "an unacceptable CER (way %d) was answered with Result-Code %v after %d other peers had completed their handshakes on the same state machine", bad, rc, goodFirst)
+		return
+	}
+	if mc.CloseCount() == 0 {
+		c.Fail(sig("not-closed-after-failure"), cer, nil, "the connection of the refused peer (way %d) was not closed", bad)
+		return
+	}
+	c.Event("gated_messages", len(gated))
+	if !good(goodFirst + 1) {
+		return
+	}
+	got := l.snapshot()
+	sort.Strings(got)
+	w := append([]string(nil), want...)
+	sort.Strings(w)
+	if fmt.Sprint(got) != fmt.Sprint(w) {
+		c.Fail(sig("handler-log-differs"), nil, nil, "application handlers ran for %v, expected exactly the requests of the accepted peers %v (the refused peer, way %d, sent %v)", got, w, bad, gated)
+		return
+	}
+	c.Event("app_invocations", len(got))
+	c.Event("server_sequences", 1)
 }
 
 func runC10Server(c *ev.Case, ctx *lib.Ctx, seq []int, oneSegment bool, allByIdx bool) {
@@ -527,6 +625,13 @@ func TestC10(t *testing.T) {
 		c10Dress = c.I/4 + c.I%4*7
 		run(c, func() { runC10Server(c, ctx, seq, c.R.IntN(2) == 0, c.R.IntN(2) == 0) })
 	})
+	rec.Suite("several-peers", 7*2*3, func(c *ev.Case) {
+		bad, byIdx, goodFirst := c.I%7, (c.I/7)%2 == 0, (c.I / 14)
+		c.Class("several-peers/bad-way=%d/accepted-before=%d", bad, goodFirst)
+		c10Dress = c.I
+		run(c, func() { runC10Several(c, ctx, bad, byIdx, goodFirst) })
+	})
+	rec.Exhaustive("several-peers")
 	// client role: all sequences up to length 4 with at most one CEA
 	var cseqs [][]int
 	var cbuild func(cur []int, ceas int)
